@@ -2,10 +2,11 @@
 (* C03 - delete removes exactly the selected nodes: single paths, splats with predicates, recursive descent with a
    predicate, several indices of one sequence in any order (and twice), selections on derived containers
    `f | del(s)` (reverse, slice, map, +, sort, filter, unique, flatten), and the union law del(s1, s2) = del(s2, s1). *)
-EXTENDS Eval, Json
-CONSTANTS NShards, Shard
+EXTENDS Eval, Json, Docs
+CONSTANTS NShards, Shard,
+          Big      \* TRUE: the systematic document space of Docs.tla is added (thorough tier)
 A == <<"a">>  B == <<"b">>  C == <<"c">>
-DocSeq == <<
+BaseDocs == <<
   MapV(<< <<A, SeqV(<<IntV(1), IntV(2), IntV(0), IntV(2)>>)>>, <<B, MapV(<< <<A, IntV(2)>>, <<B, SeqV(<<IntV(0), IntV(2)>>)>> >>)>>, <<C, IntV(2)>> >>),
   MapV(<< <<A, SeqV(<<StrV(B), StrV(A), StrV(C)>>)>>, <<B, StrV(A)>> >>),
   MapV(<< <<A, SeqV(<<MapV(<< <<A, IntV(2)>> >>), MapV(<< <<A, IntV(1)>>, <<B, IntV(2)>> >>), MapV(<< <<A, IntV(2)>>, <<C, Null>> >>)>>)>> >>),
@@ -13,6 +14,7 @@ DocSeq == <<
   MapV(<< <<A, SeqV(<<SeqV(<<IntV(1), IntV(2)>>), SeqV(<<>>), IntV(0)>>)>>, <<B, MapV(<<>>)>> >>),
   MapV(<< <<A, SeqV(<<>>)>> >>), MapV(<<>>)
 >>
+DocSeq == IF Big THEN BaseDocs \o MoreDocs ELSE BaseDocs
 Idx(l, i) == ETravArr(l, ECollect(ELit(IntV(i))))
 Idx2(l, i, j) == ETravArr(l, ECollect(EUnion(ELit(IntV(i)), ELit(IntV(j)))))
 IsTwo == EUn("SELECT", EBin("EQUALS", ESelf, ELit(IntV(2))))
